@@ -18,15 +18,33 @@ def run(run: core.Run, tier: str):
       "quantized_linear, quantized_relu, quantized_tanh, quantized_sigmoid; inputs per configuration = every "
       "code's lattice point and rounding breakpoint +-1,2 ulp (all codes up to 40, else both ends + 24 "
       "interior), saturation edges, +-0, subnormals, +-(2^24-1) steps, random uniform and log-uniform; "
-      "non-trivial = distinct (configuration, input bit pattern)")
+      "non-trivial = distinct (configuration, input bit pattern); PLUS per-channel constant alpha tensors "
+      "(layouts [1,C] / [C] / [C,1] / list / tuple / tf.constant, differing and equal entries; one record per "
+      "channel, min()/max() paired with each output element as numpy broadcasting pairs them, range() per "
+      "channel or as one list), quantized_relu x is_quantized_clip x relu_upper_bound (None, 0.0, on-grid "
+      "below / at / above the largest code, off-grid) x leaky slope, every reader of the module-level _sigmoid "
+      "(quantized_sigmoid, quantized_tanh, quantized_relu(use_sigmoid=1)) x mode at construction x mode at "
+      "call, and construct-with-decoy-then-assign-attributes")
   fixedq.compare(run, recs)
+  import numpy as np
   for r in recs:
-    key0 = {"kind": r.kind}
+    key0 = r.flags()
     lat = fixedq.lattice(r.kind, r.cfg)
     seen = set()
-    for x, y in zip(r.xs, r.ys):
+    per_elem = getattr(r, "impl_min_all", None)
+    for idx, (x, y) in enumerate(zip(r.xs, r.ys)):
       run.case((r.label, x), nontrivial=True)
       seen.add(y)
+      # ---- clause: min()/max() enclose every output (per-channel reporters: the bound numpy
+      # broadcasting pairs with this element)
+      if r.impl_min is not None:
+        mn, mx = (per_elem[idx], r.impl_max_all[idx]) if per_elem is not None else (r.impl_min, r.impl_max)
+        if not (mn <= y <= mx):
+          a = r.cfg.get("alpha")
+          run.violate("minmax", dict(key0, alpha_gt_1=bool(a not in (None, 1.0) and a > 1),
+                                     which="max" if y > mx else "min"),
+                      {"config": r.label, "x": str(x), "y": str(y), "min": str(mn), "max": str(mx)},
+                      mirrored=r.mirrored)
       # ---- clause: integer multiple of the step, between the smallest and largest code
       if lat is None:
         # 1-bit sign formats: {-g, +g} (or {0, g} unsigned) resp. +-qs/2
@@ -44,31 +62,31 @@ def run(run: core.Run, tier: str):
         run.violate("on_lattice", dict(key0, why="code-out-of-range"),
                     {"config": r.label, "x": str(x), "y": str(y), "code": str(k), "lo": lo, "hi": hi},
                     mirrored=r.mirrored)
-      # ---- clause: min()/max() enclose every output
-      if r.impl_min is not None and not (r.impl_min <= y <= r.impl_max):
-        run.violate("minmax", dict(key0, alpha_gt_1=bool(r.cfg.get("alpha") not in (None, 1.0) and r.cfg.get("alpha", 0) > 1),
-                                   which="max" if y > r.impl_max else "min"),
-                    {"config": r.label, "x": str(x), "y": str(y), "min": str(r.impl_min), "max": str(r.impl_max)},
-                    mirrored=r.mirrored)
     if lat is not None and len(seen) > 2 ** r.cfg["bits"]:
       run.violate("cardinality", key0, {"config": r.label, "distinct": len(seen)}, mirrored=r.mirrored)
     # ---- clause: range() enumerates exactly the reachable set
     if isinstance(r.impl_range, list):
+      run.count("range_checked" + ("_flat_per_channel" if r.range_flat else ""))
       rng_set = set(r.impl_range)
       extra = seen - rng_set
+      kr = dict(key0, one_bit=r.cfg["bits"] == 1, range_flat=r.range_flat)
       if extra:
-        run.violate("range_superset", dict(key0, one_bit=r.cfg["bits"] == 1),
+        run.violate("range_superset", kr,
                     {"config": r.label, "reachable_not_listed": [str(v) for v in sorted(extra)[:4]]},
                     mirrored=r.mirrored)
-      # every listed value must be reachable: it is a fixed point of the quantizer
-      import numpy as np
-      import tensorflow as tf
-      vals = np.array([float(v) for v in r.impl_range], dtype=np.float32)
-      back = fixedq.fr(np.asarray(r.q(tf.constant(vals)), dtype=np.float32))
-      unreachable = [v for v, b in zip(r.impl_range, back) if v != b and v not in seen]
-      run.evaluations += len(vals)
+      if r.range_flat and "pc" in r.cfg and r.range_unreachable is None and len(r.cfg["pc"]) \
+          and not r.cfg["pc"].endswith("[0]"):
+        continue    # one list for all channels: "listed but unreachable" is judged once, on channel 0
+      if r.range_unreachable is not None:
+        unreachable = r.range_unreachable
+      else:
+        # every listed value must be reachable: it is a fixed point of the quantizer
+        vals = np.array([float(v) for v in r.impl_range], dtype=np.float32)
+        back = fixedq.fr(r.call(vals))
+        unreachable = [v for v, b in zip(r.impl_range, back) if v != b and v not in seen]
+        run.evaluations += len(vals)
       if unreachable:
-        run.violate("range_subset", dict(key0, one_bit=r.cfg["bits"] == 1),
+        run.violate("range_subset", kr,
                     {"config": r.label, "listed_not_reachable": [str(v) for v in unreachable[:4]]},
                     mirrored=r.mirrored)
   run.extra["configurations"] = len(recs)
